@@ -890,6 +890,11 @@ def _m_subs():
     ], subs=subs)
 
 
+# context numbers with more significant digits than any short print format keeps: the number that reaches the
+# equation must be the context value itself
+_ALPHA0 = 0.2534567891
+
+
 def _m_ctx():
     x, y = V("x"), V("y")
     return _spec("ctx", [
@@ -899,11 +904,11 @@ def _m_ctx():
         ("teq", [
             E(x, add(mul(CTX("alpha0"), V("x", -1)), mul(CTX("twok"), P("p1")), V("e"))),
             E(y, add(pw(x, CTX("ktwo")), mul(P("p2"), F("sq1", V("y", -1))))),
-            E(V("z"), add(mul(CTX("alpha0"), F("hyp", x, V("z", 1))), div(y, CTX("twok"))),
+            E(V("z"), add(mul(CTX("third"), F("hyp", x, V("z", 1))), div(y, CTX("twok"))),
               steady=(V("z"), CTX("ktwo"))),
         ]),
-    ], ctx={"alpha0": ("alpha0", 0.25), "twok": ("2*K_TWO", 4), "ktwo": ("K_TWO", 2)},
-        context={"alpha0": 0.25, "pnames": ["p1", "p2"]}, user=["sq1", "hyp"])
+    ], ctx={"alpha0": ("alpha0", _ALPHA0), "third": ("alpha0/3", _ALPHA0 / 3), "twok": ("2*K_TWO", 4), "ktwo": ("K_TWO", 2)},
+        context={"alpha0": _ALPHA0, "pnames": ["p1", "p2"]}, user=["sq1", "hyp"])
 
 
 def _m_meas():
@@ -923,7 +928,8 @@ def _m_meas():
             E(V("o1"), add(x, V("w1")), desc="First observation"),
             E(F("log", V("o2")), add(mul(P("h"), y), V("w2"), V("e2")), steady=(V("o2"), F("exp", mul(P("h"), y)))),
             # a transition shock inside a measurement equation: no anticipated twin there
-            E(V("o3"), add(sub(mul(x, y), pw(V("w1"), N(2))), mul(N(0.25), V("e")))),
+            # (a 13-digit literal and one whose shortest spelling is in scientific notation, 1.5e-05)
+            E(V("o3"), add(sub(mul(x, y), pw(V("w1"), N(2))), mul(N(0.2512345678901), V("e")), mul(N(1.5e-05), x))),
         ]),
     ])
 
